@@ -53,6 +53,7 @@ ASSUMPTIONS = [
     'accuracy of the quadrature calibrated on the z-aligned cylinder: cheap 6e-2, medium 1.5e-2, expensive 6e-3 of (1-T)',
     'reference wavelength of tabulated absorption cross sections is 1.7982 angstrom (2200 m/s)',
     'Monte-Carlo quadrature kind excluded (not deterministic)',
+    'aspect ratio radius/height within 1e-6..1e6 (both within 1e-3..1e3 of one unit); detectors outside the sample at 7 x its size',
 ]
 BOUND = {
     'quick': '31 axes x 3 bases x unit m (+ mm on the far base): rays on 6 (r,h) pairs, all 3 quadrature kinds on all 16; '
@@ -149,8 +150,6 @@ def cases(tier):
     units = ('m', 'mm')
     for unit in units:
         for bname in BASES:
-            if tier == 'quick' and unit == 'mm' and bname == 'near':
-                continue
             if tier == 'quick' and unit == 'mm' and bname != 'far':
                 continue
             for aname in AXES:
@@ -350,9 +349,11 @@ def _run_quad(case, rec):
     site = 'Cylinder.quadrature'
     wtol = W_TOL[kind]
     for r_in, h in RH:
+        r = r_in * TO_M[r_unit] / TO_M[unit]  # radius in the unit of base and height
+        if not (1e-6 * (1 - 1e-9) <= r / h <= 1e6 * (1 + 1e-9)):
+            continue  # mixed units would take the aspect ratio outside the property's 1e-3..1e3 range
         rec.states += 1
         rec.evals += 1
-        r = r_in * TO_M[r_unit] / TO_M[unit]  # radius in the unit of base and height
         sub = {'axis': axis, 'base': base, 'r': r_in, 'h': h, 'unit': unit, 'r_unit': r_unit, 'qkind': kind}
         c = Cylinder(sc.vector(axis), sc.vector(base, unit=unit), sc.scalar(r_in, unit=r_unit), sc.scalar(h, unit=unit))
         pts, wts = c.quadrature(kind)
@@ -395,7 +396,7 @@ def _run_quad(case, rec):
         condh = cond / h
         bad = []
         for i in (0, 1):
-            if abs(m2[i, i] / (r * r / 4) - 1) > wtol + 8 * condr:
+            if abs(m2[i, i] / (r * r / 4) - 1) > wtol + 8 * condr + (ALIGN * h / r) ** 2 / 3:
                 bad.append(f'm{i}{i}/(r^2/4)-1={m2[i, i] / (r * r / 4) - 1:.3e}')
             if abs(m2[i, 2]) / (r * h) > wtol + 8 * (condr + condh) + ALIGN * abs(h * h / 12 - r * r / 4) / (r * h):
                 bad.append(f'm{i}2/(r h)={m2[i, 2] / (r * h):.3e}')
@@ -578,7 +579,7 @@ def _run_trans(case, rec):
             rec.viol(site, 'not_finite', f'{int((~np.isfinite(Tg)).sum())} of {Tg.size} values are not finite', **sub0)
             continue
         if (Tg <= 0).any() or (Tg > 1 + wtol).any():
-            rec.viol(site, 'out_of_range', f'range [{Tg.min()!r}, {Tg.max()!r}] not in (0, 1]', **sub0)
+            rec.viol(site, 'out_of_range', f'range [{float(Tg.min())!r}, {float(Tg.max())!r}] not in (0, 1]', **sub0)
         z = mus == 0
         rec.cls('trans_mu_zero', int(z.sum()) * len(DET_DIRS))
         rec.cls('trans_attenuated', int((~z).sum()) * len(DET_DIRS))
@@ -599,7 +600,7 @@ def _run_trans(case, rec):
             dm = np.abs(Tg - model).max()
             if dm > 1e-10 + cond:
                 j, k = np.unravel_index(np.argmax(np.abs(Tg - model)), Tg.shape)
-                rec.viol(site, 'differs_from_sum_over_points', f'detector {j}, mu {mus[k]}: map {Tg[j, k]!r}, sum over the returned points with exact path lengths {model[j, k]!r}', **sub0)
+                rec.viol(site, 'differs_from_sum_over_points', f'detector {j}, mu {mus[k]}: map {float(Tg[j, k])!r}, sum over the returned points with exact path lengths {float(model[j, k])!r}', **sub0)
             else:
                 rec.cls('trans_model_sum_ok')
             rec.validated += 1
@@ -611,7 +612,7 @@ def _run_trans(case, rec):
         if (dev > tol).any():
             j, k = np.unravel_index(np.argmax(dev / tol), dev.shape)
             knd = {'identity': 'differs_from_integral', 'other_end': 'changes_from_other_end'}.get(mtype, 'changes_under_rigid_motion')
-            rec.viol(site, knd, f'{mname}: detector {j}, mu*size {mus[k] * size:.4g}: map {Tg[j, k]!r}, integral {T_exact[j, k]!r} '
+            rec.viol(site, knd, f'{mname}: detector {j}, mu*size {mus[k] * size:.4g}: map {float(Tg[j, k])!r}, integral {float(T_exact[j, k])!r} '
                      f'(allowed {tol[j, k]:.3e}, off by {dev[j, k]:.3e}); axis {axis}', **sub0)
         rec.validated += 1
         rec.nontrivial += 1
